@@ -20,7 +20,7 @@ Definition loads_clean (content : bytes) : bool := match lf_errors (read_layerfi
 Definition complete_version (c : cfgT) (f : fsT) (cmd : command) (p x : bytes) : bool :=
   let olds : list bytes :=                         (* contents it may legitimately derive from *)
     flat_map (fun e => match snd e with
-                       | File o => if beq (pathbase (fst e)) D_LayerconfigFile
+                       | File o => if beq (pathbase (fst e)) (bs "layerconfig")
                                       || beq (pathdir (fst e)) (c_base c) then [o] else []
                        | _ => [] end) f in
   existsb (fun o => beq o x) olds
@@ -41,7 +41,7 @@ Definition step_spec (c : cfgT) (w : wobs) (v : sview) : bool :=
   let f := wo_fs w in let f' := wo_fs (v_after v) in
   (* (b) crash or not: no layerconfig is ever an empty or truncated file *)
   forallb (fun e => match snd e with
-                    | File x => if beq (pathbase (fst e)) D_LayerconfigFile && under (c_layers c) (fst e)
+                    | File x => if beq (pathbase (fst e)) (bs "layerconfig") && under (c_layers c) (fst e)
                                 then complete_version c f (v_cmd v) (fst e) x else true
                     | _ => true end) f'
   (* (a) a successful rewrite keeps parent, imports and exports of every layer that loaded *)
